@@ -1,3 +1,4 @@
+import Oidc.Proofs.RefreshChain
 import Oidc.Shapes
 import Oidc.Facts
 import Oidc.Proofs.Handler4
@@ -77,6 +78,44 @@ theorem refresh_bad_token_not_forwarded (c : Cfg) (e : Env) (r : Req) (v : View)
 theorem refresh_never_5xx (c : Cfg) (e : Env) (r : Req) (v : View) : (refreshFlow c e r v).resp.code < 500 :=
   Oidc.Handler.refreshFlow_code_lt_500 c e r v
 
+
+/-- completeness of one refresh: the stored ID token needs a refresh, a refresh token is stored, the grant returns an ID token
+    that passes `VerifyToken`, parses and carries a non-empty allowed e-mail (and an admitted role): the request is forwarded
+    with the identity of the NEW token after exactly one grant, and the response stores the refreshed session -/
+theorem refresh_completes (c : Cfg) (e : Env) (r : Req) (v : View) (idRaw rt' em : Str)
+    (hpath : excludedPath c r.path = false ∧ r.path ≠ c.logout ∧ r.path ≠ c.callback) (hpre : r.preflight = false)
+    (hnr : (classify c e v).2.1 = true) (hex : (classify c e v).2.2 = false)
+    (hans : e.refresh (getToken e.decompress v .refresh) = .ok idRaw rt')
+    (hid : idRaw ≠ []) (hver : e.verifyTok idRaw = true) (hparse : (e.tok idRaw).parses = true)
+    (hemail : (e.tok idRaw).email = some em) (hem : em ≠ [])
+    (hgetem : getEmail (refreshedView c e v idRaw rt' em) = em)
+    (hdom : isAllowedDomain c.allowDomains em = true)
+    (hrole : roleGate c e (getToken e.decompress (refreshedView c e v idRaw rt' em) .access) = true) :
+    (serveV c e r v).resp = .forward (downstreamHdrs c e r em (getToken e.decompress (refreshedView c e v idRaw rt' em) .access)) ∧
+    (serveV c e r v).calls = [Call.refresh (getToken e.decompress v .refresh)] ∧
+    (serveV c e r v).saved = [refreshedView c e v idRaw rt' em] :=
+  Oidc.World.refresh_completes c e r v idRaw rt' em hpath hpre hnr hex hans hid hver hparse hemail hem hgetem hdom hrole
+
+/-- the refreshed session holds the new ID token, the new token's e-mail, and the new refresh token — or keeps the old one if the
+    grant returned none -/
+theorem refreshed_session_holds (c : Cfg) (e : Env) (v : View) (idRaw rt' em : Str)
+    (hrt : ∀ t, e.decompress (e.compress t) = t) (hne : ∀ t, e.compress t ≠ []) (hm : 0 < c.maxSz) :
+    getToken e.decompress (refreshedView c e v idRaw rt' em) .access = idRaw ∧
+    getToken e.decompress (refreshedView c e v idRaw rt' em) .refresh =
+      (if rt' = [] then getToken e.decompress v .refresh else rt') ∧
+    getEmail (refreshedView c e v idRaw rt' em) = em :=
+  Oidc.World.refreshedView_holds c e v idRaw rt' em hrt hne hm
+
+/-- **chains.** over any chain of successive refreshes of one browser (any number of links, rotating refresh tokens or not): every
+    refreshing request performs exactly one grant and is forwarded with the identity of the token that grant returned, and the
+    browser ends up holding the session of the last grant -/
+theorem refresh_chain (c : Cfg) (fuel : Nat) (links : List Oidc.World.Link) (v : View)
+    (hg : Oidc.World.GoodChain c fuel v links) :
+    (Oidc.World.runBrowser c fuel (saveApply v) (links.map (fun s => (s.e, s.r)))).1 = saveApply (Oidc.World.chainView c v links) ∧
+    ∀ p ∈ links.zip (Oidc.World.runBrowser c fuel (saveApply v) (links.map (fun s => (s.e, s.r)))).2,
+      (∃ tokNow, p.2.resp = .forward (downstreamHdrs c p.1.e p.1.r p.1.em tokNow)) ∧
+      (∃ rtUsed, p.2.calls = [Call.refresh rtUsed]) :=
+  Oidc.World.refresh_chain c fuel links v hg
 
 /-! obligations against the regenerated shapes: the functions these theorems rest on still have the steps, guards, status
     codes and literals the model was written against (`Oidc/Shapes.lean`) -/
